@@ -92,14 +92,15 @@ class Topology:
         edge is a closing kind."""
         cls = self.cls(i)
         kw = {"v": rng.randrange(-5, 100)} if (self.payload or not any(a == i for a, _, _ in self.edges)) else {}
-        for (a, b, kind) in self.edges:
-            if a != i:
-                continue
+        mine = [e for e in self.edges if e[0] == i]
+        # deep values follow ONE spine edge per level (the others are closed), so size stays linear in depth
+        spine = rng.choice(mine) if mine and depth > 3 else None
+        for (a, b, kind) in mine:
             name = f"e{b}_{kind}"
-            if depth <= 0:
+            if depth <= 0 or (spine is not None and (a, b, kind) != spine):
                 sub = None
             else:
-                sub = lambda: self.value(b, depth - 1, rng, branching)  # noqa: E731
+                sub = lambda: self.value(b, depth - 1, rng, branching if depth <= 3 else 1)  # noqa: E731
             if kind in ("optional", "pipe"):
                 kw[name] = sub() if sub else None
             elif kind == "list":
